@@ -398,7 +398,20 @@ def main():
         enc_bytes = None
         if op in ("save", "export"):
             rich = io.read_chk_from_mpq(base)
-            if spec.get("edit"):
+            if spec.get("edit") == "unencodable":
+                # a location sticking out past the map's edge (x = -32): the rich layer accepts it, the byte layer
+                # cannot write it — the save fails in the middle, after work files were created
+                from richchk.editor.richchk.rich_chk_editor import RichChkEditor
+                from richchk.editor.richchk.rich_mrgn_editor import RichMrgnEditor
+                from richchk.io.richchk.query.chk_query_util import ChkQueryUtil
+                from richchk.model.richchk.mrgn.rich_location import RichLocation
+                from richchk.model.richchk.mrgn.rich_mrgn_section import RichMrgnSection
+                from richchk.model.richchk.str.rich_string import RichString
+
+                mrgn = ChkQueryUtil.find_only_rich_section_in_chk(RichMrgnSection, rich)
+                m2, _ = RichMrgnEditor().add_locations([RichLocation(-32, 0, 64, 64, RichString("past the edge"))], mrgn)
+                rich = RichChkEditor().replace_chk_section(m2, rich)
+            elif spec.get("edit"):
                 from richchk.editor.richchk.rich_chk_editor import RichChkEditor
                 from richchk.editor.richchk.rich_trig_editor import RichTrigEditor
                 from richchk.io.richchk.query.chk_query_util import ChkQueryUtil
